@@ -172,6 +172,7 @@ const F2_EFFECTS: [&str; 9] = ["filter", "eq", "delay", "delay+nested", "reverb"
 fn f2_cases() -> u64 {
 	F2_EFFECTS.len() as u64 * 3
 }
+const F6_EFFECTS: [&str; 8] = ["compressor", "delay", "distortion", "eq", "filter", "panning", "reverb", "volume"];
 const F3_LETTERS: [&str; 16] = [
 	"play short static sound on main",
 	"play looping static sound on the newest sub-track",
@@ -202,9 +203,12 @@ impl Check for C01 {
 		Level::Exploration
 	}
 	fn num_cases(&self, _tier: Tier) -> u64 {
-		f1_cases() + fx_cases() + f2_cases() + f3_cases() + 1
+		f1_cases() + fx_cases() + f2_cases() + f3_cases() + 1 + F6_EFFECTS.len() as u64
 	}
 	fn describe(&self, tier: Tier, idx: u64) -> String {
+		if idx > f1_cases() + fx_cases() + f2_cases() + f3_cases() {
+			return format!("F6 effect handle setters: {} - every parameter tweened between every ordered pair of its lattice values with tweens of 0, 1.5 and 6 internal buffers", F6_EFFECTS[(idx - f1_cases() - fx_cases() - f2_cases() - f3_cases() - 1) as usize]);
+		}
 		if idx == f1_cases() + fx_cases() + f2_cases() + f3_cases() {
 			return "F5 output stage: a DC sound with (left, right) in a lattice of in-range / over-full-scale / huge values x volume {0 dB, +20 dB, +1000 dB} x 1..8 output channels".into();
 		}
@@ -240,6 +244,9 @@ impl Check for C01 {
 		)
 	}
 	fn sig_hint(&self, _tier: Tier, idx: u64) -> String {
+		if idx > f1_cases() + fx_cases() + f2_cases() + f3_cases() {
+			return format!("F6 {}", F6_EFFECTS[(idx - f1_cases() - fx_cases() - f2_cases() - f3_cases() - 1) as usize]);
+		}
 		if idx == f1_cases() + fx_cases() + f2_cases() + f3_cases() {
 			return "F5 output stage".into();
 		}
@@ -259,7 +266,7 @@ impl Check for C01 {
 		"F3 history".into()
 	}
 	fn rule(&self) -> String {
-		"F1: {static, streaming} x length {0,1,2,5} x slice {none, empty, inner, inverted, beyond the data} x loop {none, whole, empty, inverted, beyond, end==len} x sound rate x start position {0,1,len-1,len,len+3} x reverse x rate {1,-1,0,0.5,3} x 18 handle commands with boundary arguments; FX: 14 extreme finite values (1e9, 1e300, +-1e12 s, +-1e30 dB, 1e15 samples) x {static, streaming}, one per case; F2: 9 effect families, each parameter at documented min / max / default / 0 / just outside, x sample rate {8000, 44100, 192000} x 5 input signals x callbacks {1, ibs, 2*ibs+1}; F3: all API histories to depth 4 (5) over 16 letters with all capacities 1, and with all capacities 0; F4: every depth-3 history with 1..8 channels (mono must be the mean of the stereo rendering, extra channels silent); F5: the output stage alone: DC frames (l, r) over {0, +-0.5, +-1.5, +-3e38}^2 x volume {0, +20, +1000 dB} x 1..8 channels. Oracle = the callback monitors. non-trivial = callbacks that produced non-silent audio or ran after at least one command".into()
+		"F1: {static, streaming} x length {0,1,2,5} x slice {none, empty, inner, inverted, beyond the data} x loop {none, whole, empty, inverted, beyond, end==len} x sound rate x start position {0,1,len-1,len,len+3} x reverse x rate {1,-1,0,0.5,3} x 18 handle commands with boundary arguments; FX: 14 extreme finite values (1e9, 1e300, +-1e12 s, +-1e30 dB, 1e15 samples) x {static, streaming}, one per case; F2: 9 effect families, each parameter at documented min / max / default / 0 / just outside, x sample rate {8000, 44100, 192000} x 5 input signals x callbacks {1, ibs, 2*ibs+1}; F3: all API histories to depth 4 (5) over 16 letters with all capacities 1, and with all capacities 0; F4: every depth-3 history with 1..8 channels (mono must be the mean of the stereo rendering, extra channels silent); F6: every setter of every built-in effect handle, value tweened between every ordered pair of a 3..4-point lattice (increasing and decreasing) with tweens of 0 / 1.5 / 6 internal buffers; F5: the output stage alone: DC frames (l, r) over {0, +-0.5, +-1.5, +-3e38}^2 x volume {0, +20, +1000 dB} x 1..8 channels. Oracle = the callback monitors. non-trivial = callbacks that produced non-silent audio or ran after at least one command".into()
 	}
 	fn assumptions(&self) -> Vec<String> {
 		vec![
@@ -275,6 +282,10 @@ impl Check for C01 {
 		300_000
 	}
 	fn run_case(&self, tier: Tier, idx: u64, ctx: &mut Ctx) {
+		if idx > f1_cases() + fx_cases() + f2_cases() + f3_cases() {
+			f6((idx - f1_cases() - fx_cases() - f2_cases() - f3_cases() - 1) as usize, ctx);
+			return;
+		}
 		if idx == f1_cases() + fx_cases() + f2_cases() + f3_cases() {
 			f5(ctx);
 			return;
@@ -1023,4 +1034,130 @@ fn f5(ctx: &mut Ctx) {
 		}
 	}
 	ctx.outcome(hash64(&"f5"));
+}
+
+// ---------------------------------------------------------------------------------------------
+// F6: effect handle setters - a parameter moving (up and down) over several internal buffers
+
+fn f6(which: usize, ctx: &mut Ctx) {
+	use kira::Mix;
+	const SR: u32 = 8000;
+	const IBS: usize = 32;
+	let tweens: [f64; 3] = [0.0, 1.5 * IBS as f64 / SR as f64, 6.0 * IBS as f64 / SR as f64];
+	// (parameter, number of lattice values, scene builder: (value index a, value index b, tween) -> (builder, setter))
+	type Setter = Box<dyn FnMut(Tween)>;
+	type Scene = Box<dyn Fn(usize, usize) -> (TrackBuilder, Setter)>;
+	let mut params: Vec<(&'static str, usize, Scene)> = vec![];
+	macro_rules! p {
+		($name:expr, $vals:expr, $mk:expr, $set:expr) => {{
+			let vals = $vals;
+			params.push((
+				$name,
+				vals.len(),
+				Box::new(move |a: usize, b: usize| {
+					let mut tb = TrackBuilder::new();
+					let mut h = tb.add_effect(($mk)(vals[a]));
+					let target = vals[b];
+					(tb, Box::new(move |tw: Tween| ($set)(&mut h, target, tw)) as Setter)
+				}),
+			));
+		}};
+	}
+	let ms = Duration::from_millis;
+	match which {
+		0 => {
+			p!("threshold", [-24.0f64, 0.0, -60.0], |v| CompressorBuilder::new().ratio(4.0).threshold(v), |h: &mut kira::effect::compressor::CompressorHandle, v, tw| h.set_threshold(v, tw));
+			p!("ratio", [4.0f64, 1.0, 100.0, 0.5], |v| CompressorBuilder::new().threshold(-24.0).ratio(v), |h: &mut kira::effect::compressor::CompressorHandle, v, tw| h.set_ratio(v, tw));
+			p!("attack_duration", [ms(10), ms(1), ms(100), Duration::ZERO], |v| CompressorBuilder::new().threshold(-24.0).ratio(4.0).attack_duration(v), |h: &mut kira::effect::compressor::CompressorHandle, v, tw| h.set_attack_duration(v, tw));
+			p!("release_duration", [ms(100), ms(1), ms(500), Duration::ZERO], |v| CompressorBuilder::new().threshold(-24.0).ratio(4.0).release_duration(v), |h: &mut kira::effect::compressor::CompressorHandle, v, tw| h.set_release_duration(v, tw));
+			p!("makeup_gain", [Decibels(0.0), Decibels(12.0), Decibels(-60.0)], |v| CompressorBuilder::new().threshold(-24.0).ratio(4.0).makeup_gain(v), |h: &mut kira::effect::compressor::CompressorHandle, v, tw| h.set_makeup_gain(v, tw));
+			p!("mix", [Mix(1.0), Mix(0.0), Mix(0.5)], |v| CompressorBuilder::new().threshold(-24.0).ratio(4.0).mix(v), |h: &mut kira::effect::compressor::CompressorHandle, v, tw| h.set_mix(v, tw));
+		}
+		1 => {
+			p!("feedback", [Decibels(-6.0), Decibels(-60.0), Decibels(0.0)], |v| DelayBuilder::new().delay_time(ms(2)).feedback(v), |h: &mut kira::effect::delay::DelayHandle, v, tw| h.set_feedback(v, tw));
+			p!("mix", [Mix(0.5), Mix(0.0), Mix(1.0)], |v| DelayBuilder::new().delay_time(ms(2)).mix(v), |h: &mut kira::effect::delay::DelayHandle, v, tw| h.set_mix(v, tw));
+		}
+		2 => {
+			for kind in [DistortionKind::HardClip, DistortionKind::SoftClip] {
+				p!("drive", [Decibels(0.0), Decibels(40.0), Decibels(-60.0)], move |v| DistortionBuilder::new().kind(kind).drive(v), |h: &mut kira::effect::distortion::DistortionHandle, v, tw| h.set_drive(v, tw));
+				p!("mix", [Mix(1.0), Mix(0.0), Mix(0.5)], move |v| DistortionBuilder::new().kind(kind).mix(v), |h: &mut kira::effect::distortion::DistortionHandle, v, tw| h.set_mix(v, tw));
+			}
+		}
+		3 => {
+			for kind in [EqFilterKind::Bell, EqFilterKind::LowShelf, EqFilterKind::HighShelf] {
+				p!("frequency", [1000.0f64, 20.0, 3900.0, 0.0], move |v| EqFilterBuilder::new(kind, v, 6.0, 1.0), |h: &mut kira::effect::eq_filter::EqFilterHandle, v, tw| h.set_frequency(v, tw));
+				p!("gain", [Decibels(6.0), Decibels(-60.0), Decibels(24.0)], move |v| EqFilterBuilder::new(kind, 1000.0, v, 1.0), |h: &mut kira::effect::eq_filter::EqFilterHandle, v, tw| h.set_gain(v, tw));
+				p!("q", [1.0f64, 0.1, 10.0, 0.0], move |v| EqFilterBuilder::new(kind, 1000.0, 6.0, v), |h: &mut kira::effect::eq_filter::EqFilterHandle, v, tw| h.set_q(v, tw));
+			}
+		}
+		4 => {
+			for mode in [FilterMode::LowPass, FilterMode::BandPass, FilterMode::HighPass, FilterMode::Notch] {
+				p!("cutoff", [1000.0f64, 20.0, 3900.0, 0.0], move |v| FilterBuilder::new().mode(mode).cutoff(v), |h: &mut kira::effect::filter::FilterHandle, v, tw| h.set_cutoff(v, tw));
+				p!("resonance", [0.0f64, 1.0, 0.5], move |v| FilterBuilder::new().mode(mode).resonance(v), |h: &mut kira::effect::filter::FilterHandle, v, tw| h.set_resonance(v, tw));
+				p!("mix", [Mix(1.0), Mix(0.0), Mix(0.5)], move |v| FilterBuilder::new().mode(mode).mix(v), |h: &mut kira::effect::filter::FilterHandle, v, tw| h.set_mix(v, tw));
+			}
+		}
+		5 => {
+			p!("panning", [Panning(0.0), Panning(-1.0), Panning(1.0)], |v| PanningControlBuilder(Value::Fixed(v)), |h: &mut kira::effect::panning_control::PanningControlHandle, v, tw| h.set_panning(v, tw));
+		}
+		6 => {
+			p!("feedback", [0.9f64, 0.0, 1.0], |v| ReverbBuilder::new().feedback(v), |h: &mut kira::effect::reverb::ReverbHandle, v, tw| h.set_feedback(v, tw));
+			p!("damping", [0.1f64, 0.0, 1.0], |v| ReverbBuilder::new().damping(v), |h: &mut kira::effect::reverb::ReverbHandle, v, tw| h.set_damping(v, tw));
+			p!("stereo_width", [1.0f64, 0.0, 0.5], |v| ReverbBuilder::new().stereo_width(v), |h: &mut kira::effect::reverb::ReverbHandle, v, tw| h.set_stereo_width(v, tw));
+			p!("mix", [Mix(0.5), Mix(0.0), Mix(1.0)], |v| ReverbBuilder::new().mix(v), |h: &mut kira::effect::reverb::ReverbHandle, v, tw| h.set_mix(v, tw));
+		}
+		_ => {
+			p!("volume", [Decibels(0.0), Decibels(-60.0), Decibels(12.0)], |v| VolumeControlBuilder(Value::Fixed(v)), |h: &mut kira::effect::volume_control::VolumeControlHandle, v, tw| h.set_volume(v, tw));
+		}
+	}
+	let noise: Vec<Frame> = (0..64).map(|i| Frame::new((((i * 7919 + 13) % 64) as f32 / 64.0 - 0.5) * 1.6, (((i * 104729 + 7) % 64) as f32 / 64.0 - 0.5) * 1.6)).collect();
+	for (name, nv, scene) in &params {
+		for a in 0..*nv {
+			for b in 0..*nv {
+				if a == b {
+					continue;
+				}
+				for &tw in &tweens {
+					ctx.evals += 1;
+					let desc = || format!("{} {}: value #{} -> value #{} with a tween of {} s ({} internal buffers of {} frames at {} Hz), noise input, callbacks of {} frames", F6_EFFECTS[which], name, a, b, tw, tw * SR as f64 / IBS as f64, IBS, SR, IBS);
+					let r = catch(|| {
+						let (tb, mut set) = scene(a, b);
+						let mut m = rig::manager(SR, IBS, rig::caps(2), MainTrackBuilder::new());
+						let mut t = m.add_sub_track(tb).map_err(|e| format!("{:?}", e))?;
+						let _s = t.play(rig::static_data(SR, noise.clone()).loop_region(Region::from(..))).map_err(|_| "play".to_string())?;
+						let mut buf = vec![0.0f32; IBS * 2];
+						let mut nonsilent = false;
+						for cb in 0..10 {
+							if cb == 1 {
+								set(Tween { start_time: StartTime::Immediate, duration: Duration::from_secs_f64(tw), easing: Easing::Linear });
+							}
+							let rep = rig::callback(&mut m, &mut buf, IBS, 2);
+							if !rep.ok() {
+								return Ok::<_, String>(Some((cb, rep)));
+							}
+							nonsilent |= buf.iter().any(|x| *x != 0.0);
+						}
+						let _ = nonsilent;
+						Ok(None)
+					});
+					match r {
+						Ok(Ok(None)) => {
+							ctx.nontrivial_extra += 1;
+						}
+						Ok(Ok(Some((cb, rep)))) => {
+							let dir = if tw == 0.0 { "instant" } else { "tweened" };
+							rig::report_cb(ctx, &rep, &format!("F6 {} {} ({})", F6_EFFECTS[which], name, dir), &|| format!("{}; callback {}", desc(), cb));
+						}
+						Ok(Err(e)) => ctx.fail(format!("scene could not be built: {} :: F6 {}", e, F6_EFFECTS[which]), desc()),
+						Err(p) => {
+							ctx.count("caller_thread_panics", 1);
+							let _ = p;
+						}
+					}
+					ctx.state(hash64(&(which, name, a, b, tw.to_bits())));
+				}
+			}
+		}
+	}
+	ctx.outcome(hash64(&("f6", which)));
 }
